@@ -427,7 +427,7 @@ pub fn h_glist(inp: &Inp) -> u8 {
 }
 
 
-//@ disabled-harness (symbolic execution + queries exceed 10 min; sorted-array maps keyed by symbolic identifiers) props=C12,C13 name=List bounded history: two ops by two actors (concurrent or causally ordered, insert or delete), delivered in both causal orders with a duplicate, then a third insert/delete at a symbolic index on the converged replica: same sequence everywhere, one relative order, no duplicates, edits land at the clamped index (Vec model) also next to concurrent siblings
+//@ disabled-harness (unsliced version: the solver does not finish; superseded by h_list_hist3) props=C12,C13 name=List bounded history: two ops by two actors (concurrent or causally ordered, insert or delete), delivered in both causal orders with a duplicate, then a third insert/delete at a symbolic index on the converged replica: same sequence everywhere, one relative order, no duplicates, edits land at the clamped index (Vec model) also next to concurrent siblings
 #[no_mangle]
 pub fn h_list_hist2(inp: &Inp) -> u8 {
     let mut i = In::new(inp);
@@ -573,4 +573,156 @@ pub fn h_list_hist2(inp: &Inp) -> u8 {
     } else {
         1
     }
+}
+
+//@ harness props=C12,C13,C01,C09,C16 variants=5 covers=3,4,5 unwind=10 name=List bounded history (sliced): two ops by two actors (concurrent or causally ordered, insert or delete) delivered in both causal orders with a duplicate, then a third insert/delete at a symbolic index on the converged replica; slice 0 author-side Vec model, 1 both delivery orders give == replicas, 2 catching up / no duplicates / one relative order, 3 Vec model of the third edit next to concurrent siblings, 4 the lagging replica converges
+#[no_mangle]
+pub fn h_list_hist3(inp: &Inp) -> u8 {
+    let mut i = In::new(inp);
+    let v = i.variant(5);
+    let a0 = i.below(NA);
+    let a1 = i.below(NA);
+    let saw = i.bool();
+    let del1 = i.bool();
+    let ix1 = i.below(3) as usize;
+    let a2 = i.below(NA);
+    let del2 = i.bool();
+    let ix2 = i.below(4) as usize;
+    let dup = i.bool();
+    i.assume(a0 != a1 || saw);
+    i.assume(!del1 || saw);
+    if !i.ok {
+        return 2;
+    }
+    let cov = if !saw && !del2 && !del1 { 3 } else if del2 { 4 } else if del1 { 5 } else { 1 };
+    let mut r0: L = List::new();
+    let op0 = r0.insert_index(0, 10, a0);
+    if r0.validate_op(&op0).is_err() {
+        return 0;
+    }
+    r0.apply(op0.clone());
+    let mut r1: L = if saw { r0.clone() } else { List::new() };
+    let before1 = seq(&r1);
+    let op1 = if del1 {
+        match r1.delete_index(0, a1) {
+            Some(o) => o,
+            None => return 0,
+        }
+    } else {
+        r1.insert_index(ix1, 11, a1)
+    };
+    if r1.validate_op(&op1).is_err() {
+        return 0;
+    }
+    r1.apply(op1.clone());
+    if v == 0 {
+        let after1 = seq(&r1);
+        if del1 {
+            if after1.1 != 0 {
+                return 0;
+            }
+        } else {
+            let at = if ix1 > before1.1 { before1.1 } else { ix1 };
+            if !seq_eq(&after1, &with_insert(&before1, at, 11)) {
+                return 0;
+            }
+        }
+        return cov;
+    }
+    let mut t: L = List::new();
+    t.apply(op0.clone());
+    if t.validate_op(&op1).is_err() {
+        return 0;
+    }
+    t.apply(op1.clone());
+    if v == 1 {
+        let mut t2: L = List::new();
+        if saw {
+            t2.apply(op0.clone());
+            if dup {
+                t2.apply(op0.clone());
+            }
+            t2.apply(op1.clone());
+        } else {
+            t2.apply(op1.clone());
+            t2.apply(op0.clone());
+            if dup {
+                t2.apply(op1.clone());
+            }
+        }
+        if t != t2 {
+            return 0;
+        }
+        return cov;
+    }
+    let st = seq(&t);
+    if v == 2 {
+        let after1 = seq(&r1);
+        r1.apply(op0.clone());
+        if r1 != t {
+            return 0;
+        }
+        if count(&st, 10) > 1 || count(&st, 11) > 1 || st.1 != t.len() {
+            return 0;
+        }
+        if !same_relative_order(&st, &after1) || !same_relative_order(&st, &seq(&r0)) {
+            return 0;
+        }
+        return cov;
+    }
+    let is_del = del2 && st.1 > 0;
+    if is_del {
+        i.assume(ix2 < st.1);
+        if !i.ok {
+            return 2;
+        }
+    }
+    let op2 = if is_del {
+        match t.delete_index(ix2, a2) {
+            Some(o) => o,
+            None => return 0,
+        }
+    } else {
+        t.insert_index(ix2, 12, a2)
+    };
+    if t.validate_op(&op2).is_err() {
+        return 0;
+    }
+    let lag = t.clone();
+    t.apply(op2.clone());
+    if v == 3 {
+        let st2 = seq(&t);
+        if is_del {
+            if st2.1 + 1 != st.1 {
+                return 0;
+            }
+            let mut x = 0;
+            while x < 4 {
+                if x < st2.1 {
+                    let want = if x < ix2 { st.0[x] } else { st.0[(x + 1) & 3] };
+                    if st2.0[x] != want {
+                        return 0;
+                    }
+                }
+                x += 1;
+            }
+        } else {
+            let at = if ix2 > st.1 { st.1 } else { ix2 };
+            if !seq_eq(&st2, &with_insert(&st, at, 12)) {
+                return 0;
+            }
+            if t.position(at).copied() != Some(12) {
+                return 0;
+            }
+        }
+        return cov;
+    }
+    // v == 4: a replica that lags behind applies the third op (twice) and converges
+    let mut t2 = lag;
+    t2.apply(op2.clone());
+    t2.apply(op2);
+    if t2 != t {
+        return 0;
+    }
+    cov
 }
